@@ -966,6 +966,8 @@ fn class_of_upd(f: FactoryKind, u: &Upd, out: &str) -> String {
 /// (each `upd` followed by the three queries).
 fn part_masks(ses: &mut Session, sut: &mut S, codes: &Codes) {
     let seq_len = 32usize;
+    let rounds = ses.scale(1, 4);
+    for _round in 0..rounds {
     for f in ALL_F {
         let names = fields_of(f);
         let k = names.len();
@@ -991,7 +993,10 @@ fn part_masks(ses: &mut Session, sut: &mut S, codes: &Codes) {
             }
             ses.end_case();
         }
-        ses.note(format!("{}-factory: all 2^{} = {} subsets of the optional update fields exercised", fk_letter(f), k, 1u32 << k));
+        if _round == 0 {
+            ses.note(format!("{}-factory: all 2^{} = {} subsets of the optional update fields exercised ({} round(s) with fresh random values)", fk_letter(f), k, 1u32 << k, rounds));
+        }
+    }
     }
 }
 
@@ -1274,7 +1279,7 @@ fn run_op(ses: &mut Session, sut: &mut S, g: &mut Gen, line: &str) -> String {
 
 /// Part B: random interleavings of governance updates with creations, mints, airdrops and admin operations
 fn part_world(ses: &mut Session, sut: &mut S, codes: &Codes) {
-    let cases = ses.scale(30, 600);
+    let cases = ses.scale(30, 2000);
     let len = ses.scale(70, 90);
     for i in 0..cases {
         for f in ALL_F {
